@@ -2,7 +2,7 @@ import XsgModel.Props.C01
 import XsgModel.Props.C04
 import XsgModel.Props.C11
 import XsgModel.Model.De
-import XsgModel.Proofs.DeserOk
+import XsgModel.Proofs.DeserQuick
 import XsgModel.Proofs.DeserScope
 /-!
 # C02 — generated code compiles and quick_xml::de deserializes the source documents  (PARTIAL)
@@ -144,6 +144,30 @@ example : ∃ t, parseHistory ((H.map VDoc.erase).map Doc.events) = .ok t ∧
     ∀ deny : Bool, ∀ d ∈ H, d.root.inModel DeCfg.quickXml = true →
       ∃ v, deDoc DeCfg.quickXml ((renderAST Options.quickXmlDe t).map StructDef.plain) deny d.root = .ok v ∧
         (ne v.strings).Perm (ne (d.root.values DeCfg.quickXml)) := C02_holds H ok keys
+
+/-- the tree the library builds for the example history (evaluated in the kernel) -/
+def t : Elem := match parseHistory ((H.map VDoc.erase).map Doc.events) with | .ok t => t | .error _ => default
+
+/-- a concrete run of the model on the example: the strings of the value `from_str` gives for
+`<r a="1"><e k="v"> hi </e><e k="w"/><g/></r>`, with `deny_unknown_fields`: the attribute values and the trimmed
+text, in field order (`g` never has content: it is a struct without fields) -/
+theorem run_d1 :
+    (match deDoc DeCfg.quickXml ((renderAST Options.quickXmlDe t).map StructDef.plain) true d1.root with
+     | .ok v => v.strings
+     | .error _ => []) = [cl!"1", cl!"v", cl!"hi", cl!"w"] := by decide +kernel
+
+/-- `<r><a:x k="1"/><b:x k="2"/></r>`: two children whose names clash after prefix removal -/
+def dClash : VDoc := ⟨.nil, .mk (cl!"r") [] false
+  (.elem (.mk (cl!"a:x") [(cl!"k", cl!"1")] true .nil)
+  (.elem (.mk (cl!"b:x") [(cl!"k", cl!"2")] true .nil) .nil)), .nil⟩
+def tClash : Elem := match parseHistory ([dClash.erase].map Doc.events) with | .ok t => t | .error _ => default
+def isOk : Except DeErr Val → Bool | .ok _ => true | .error _ => false
+
+/-- the side condition is needed: without it the model (like the real deserializer: `duplicate field`) rejects the
+source document -/
+theorem clash_negative : tClash.keysOK = false ∧ dClash.root.inModel DeCfg.quickXml = true ∧
+    isOk (deDoc DeCfg.quickXml ((renderAST Options.quickXmlDe tClash).map StructDef.plain) false dClash.root) = false := by
+  decide +kernel
 end C02Example
 
 /-- the program the theorem speaks about is the one read back from the rendered text (C04) -/
